@@ -280,6 +280,7 @@ func (h *Handler) ProcessPacket(frame packet.Frame) error {
 	}
 
 	var response packet.DHCP4
+	broadcast := dhcpFrame.Broadcast() // read now: the reply is encoded into the request buffer, flags cleared
 
 	h.Lock()
 	switch reqType {
@@ -301,7 +302,7 @@ func (h *Handler) ProcessPacket(frame packet.Frame) error {
 	if response != nil {
 		var dstAddr packet.Addr
 		// If IP not available, broadcast
-		if frame.SrcAddr.IP == packet.IPv4zero || dhcpFrame.Broadcast() {
+		if frame.SrcAddr.IP == packet.IPv4zero || broadcast {
 			dstAddr = packet.Addr{MAC: packet.EthBroadcast, IP: packet.IPv4bcast, Port: packet.DHCP4ClientPort}
 		} else {
 			dstAddr = packet.Addr{MAC: frame.SrcAddr.MAC, IP: frame.SrcAddr.IP, Port: packet.DHCP4ClientPort}
